@@ -558,3 +558,68 @@ where
         _ => None,
     }
 }
+
+
+/// Run an explicit, finite list of cases (a systematic enumeration) on all workers. The first failing case per worker
+/// is written as a replay; nothing is shrunk (the enumeration order already goes from few to many pre-emptions).
+pub fn run_list<C>(def: &PropDef<C>, cases: Vec<C>, findings: &Findings) -> Report
+where
+    C: Clone + Debug + Serialize + DeserializeOwned + Send + Sync + 'static,
+{
+    install_panic_hook();
+    let jobs = jobs_from_env().min(cases.len().max(1));
+    let root = scratch_root().join(format!("{}-enum", def.id));
+    let next = std::sync::atomic::AtomicUsize::new(0);
+    let stop = std::sync::atomic::AtomicBool::new(false);
+    let merged: Mutex<Report> = Mutex::new(Report::default());
+    let cases = &cases;
+    std::thread::scope(|sc| {
+        for w in 0..jobs {
+            let (next, stop, merged, root) = (&next, &stop, &merged, root.clone());
+            let _ = std::thread::Builder::new().name(format!("e{w}")).stack_size(16 << 20).spawn_scoped(sc, move || {
+                let mut rep = Report::default();
+                loop {
+                    if stop.load(std::sync::atomic::Ordering::SeqCst) {
+                        break;
+                    }
+                    let i = next.fetch_add(1, std::sync::atomic::Ordering::SeqCst);
+                    if i >= cases.len() {
+                        break;
+                    }
+                    let case = &cases[i];
+                    let dir = root.join(format!("w{w}"));
+                    rm_rf(&dir);
+                    let _ = std::fs::create_dir_all(&dir);
+                    let r = guarded(|| (def.run)(case, &dir));
+                    rm_rf(&dir);
+                    rep.evaluations += 1;
+                    rep.merge_stats(&r.stats);
+                    match r.failure {
+                        None => {
+                            if r.nontrivial {
+                                rep.nontrivial.insert(hash64(&serde_json::to_string(case).unwrap_or_default()));
+                            }
+                        }
+                        Some(f) if f.class.starts_with("harness-") => {}
+                        Some(f) => match findings.matches_open(def.id, &f) {
+                            Some(id) => {
+                                *rep.known.entry(id).or_insert(0) += 1;
+                                if r.nontrivial {
+                                    rep.nontrivial.insert(hash64(&serde_json::to_string(case).unwrap_or_default()));
+                                }
+                            }
+                            None => {
+                                let path = write_replay(def.id, def.engine, 0, case, &f);
+                                rep.violations.push((format!("{}: {}", f.class, f.msg), path));
+                                stop.store(true, std::sync::atomic::Ordering::SeqCst);
+                            }
+                        },
+                    }
+                }
+                merged.lock().unwrap().merge(rep);
+            });
+        }
+    });
+    rm_rf(&root);
+    merged.into_inner().unwrap()
+}
